@@ -592,8 +592,8 @@ var c16TxMenu = []c16Op{{kind: c16OpTHash}, {kind: c16OpTMsgTx}, {kind: c16OpTIn
 
 var c16BlockCtors = []string{"NewBlock", "NewBlockFromBytes", "NewBlockFromReader", "NewBlockFromBlockAndBytes", "NewBlockFromBytes+trailing", "NewBlockFromReader+trailing",
 	"NewBlockFromReader+onebyte", "NewBlockFromReader+half", // readers that deliver less than asked for (a network connection)
-	"NewBlockFromReader+offset", "NewBlockFromReader+second"} // a *bytes.Reader that does not stand at its beginning: after an 8-byte record header / after another block read from the same reader
-var c16TxCtors = []string{"NewTx", "NewTxFromBytes", "NewTxFromReader", "NewTxFromBytes+trailing", "NewTxFromReader+trailing", "NewTxFromReader+onebyte", "NewTxFromReader+half", "NewTxFromReader+offset"}
+	"NewBlockFromReader+offset", "NewBlockFromReader+second", "NewBlockFromReader+buffer"} // a *bytes.Reader that does not stand at its beginning: after an 8-byte record header / after another block read from the same reader
+var c16TxCtors = []string{"NewTx", "NewTxFromBytes", "NewTxFromReader", "NewTxFromBytes+trailing", "NewTxFromReader+trailing", "NewTxFromReader+onebyte", "NewTxFromReader+half", "NewTxFromReader+offset", "NewTxFromReader+buffer"}
 
 // c16Reader: the reader handed to a from-reader constructor
 func c16Reader(ctor string, b []byte) io.Reader {
@@ -1240,6 +1240,15 @@ func c16RunBlock(w *mc.W, fixture, ctor string, ops []c16Op, wantKey, sweep bool
 		case "NewBlockFromBytes", "NewBlockFromBytes+trailing":
 			b, err = bchutil.NewBlockFromBytes(ser)
 			r.bytesCached = true
+		case "NewBlockFromReader+buffer":
+			// a *bytes.Buffer that the caller goes on using (the next message is read into it)
+			buf := bytes.NewBuffer(ser)
+			b, err = bchutil.NewBlockFromReader(buf)
+			buf.Reset()
+			buf.Write(bytes.Repeat([]byte{0xa5}, len(ser)))
+			for i := range ser {
+				ser[i] = 0x5a
+			}
 		case "NewBlockFromReader", "NewBlockFromReader+trailing", "NewBlockFromReader+onebyte", "NewBlockFromReader+half", "NewBlockFromReader+offset", "NewBlockFromReader+second":
 			b, err = bchutil.NewBlockFromReader(c16Reader(ctor, ser))
 		case "NewBlockFromBlockAndBytes":
@@ -1381,6 +1390,15 @@ func c16RunTx(w *mc.W, name, ctor string, ops []c16Op, wantKey, sweep bool) (key
 			t = bchutil.NewTx(c16BuildTx(name))
 		case "NewTxFromBytes", "NewTxFromBytes+trailing":
 			t, err = bchutil.NewTxFromBytes(ref.input(ctor))
+		case "NewTxFromReader+buffer":
+			raw := ref.input(ctor)
+			buf := bytes.NewBuffer(raw)
+			t, err = bchutil.NewTxFromReader(buf)
+			buf.Reset()
+			buf.Write(bytes.Repeat([]byte{0xa5}, len(raw)))
+			for i := range raw {
+				raw[i] = 0x5a
+			}
 		case "NewTxFromReader", "NewTxFromReader+trailing", "NewTxFromReader+onebyte", "NewTxFromReader+half", "NewTxFromReader+offset":
 			t, err = bchutil.NewTxFromReader(c16Reader(ctor, ref.input(ctor)))
 		default:
